@@ -499,6 +499,30 @@ def sites_strategy(tier):
     return cases()
 
 
+class Fancy(str):
+    """a str subclass whose renderings are not its content (what (str, Enum) members, translation proxies and tagged strings are)"""
+
+    def __str__(self):
+        return "Fancy.MEMBER"
+
+    def __repr__(self):
+        return "<Fancy.MEMBER: ...>"
+
+    def __format__(self, spec):
+        return "Fancy.MEMBER"
+
+
+def fancy(s):
+    if len(s) % 2 and s:
+        from enum import Enum
+
+        try:
+            return Enum("Gait", {"MEMBER": s}, type=str).MEMBER   # its str() is 'Gait.MEMBER' (or the value, depending on the Python version)
+        except Exception:  # noqa
+            pass
+    return Fancy(s)
+
+
 def lib_frame_(e):
     from ..core import lib_frame
 
@@ -540,11 +564,32 @@ def run_sites(ctx, case):
                 if ok and back2 != s:
                     ctx.fail(f"{site}/read-not-cut-at-terminator", f"{site}: text of {len(s)} chars followed by NUL and garbage reads back as {len(back2)} chars "
                                                                   f"({back2[:20]!r}...) instead of {s[:20]!r}")
+            # the same text handed over as an instance of a str SUBCLASS whose str() / repr() / format() are not its content: it is that text
+            # (refusing the object is within the property - storing one of its renderings is not)
+            try:
+                out_f = writer(fancy(s))
+            except (ValueError, TypeError):
+                out_f = None
+            except Exception as e:  # noqa
+                out_f = None
+                if lib_frame_(e):
+                    ctx.fail(f"{site}/str-subclass-raises-{type(e).__name__}", f"{site}: a str-subclass instance holding {s[:30]!r} made the writer raise {type(e).__name__}: {e}")
+            if out_f is not None and out_f != want:
+                ctx.fail(f"{site}/str-subclass-stored-as-something-else", f"{site}: a str-subclass instance whose content is {s[:30]!r} ({len(s)} chars) was stored, but not as that "
+                                                                          f"text (first diff at {next((i for i in range(min(len(out_f), len(want))) if out_f[i] != want[i]), 'end')})")
             if out != want:
                 ctx.fail(f"{site}/wrong-bytes", f"{site}: text of {len(s)} chars: item bytes differ from the layout "
                                                 f"(len {len(out)} vs {len(want)}; first diff at "
                                                 f"{next((i for i in range(min(len(out), len(want))) if out[i] != want[i]), 'end')})")
     else:
+        if exc is not None:
+            try:
+                out_f = writer(fancy(s))
+            except Exception:  # noqa - refused, as it has to be
+                out_f = None
+            if out_f is not None:
+                ctx.fail(f"{site}/accepts-invalid-str-subclass", f"{site}: invalid text ({len(s)} chars, encodable={cp1252.encodable(s)}) handed over as a str-subclass instance "
+                                                                 f"was written ({len(out_f)} bytes) instead of being refused")
         if exc is None:
             ctx.fail(f"{site}/accepts-invalid", f"{site}: invalid text ({len(s)} chars, encodable={cp1252.encodable(s)}) "
                                                 f"was written ({len(out)} bytes) instead of ValueError")
@@ -622,8 +667,21 @@ def run_file_comments(ctx, case):
                 w_.add_block(specs.build(labelled_spec("events", 1)))
             else:
                 w_.add_block(specs.build(labelled_spec("events", 1)), c1)
+            # two more blocks stored BEHIND it, each with a comment of its own: whatever happens to the first block, theirs stay theirs
+            w_.add_block(specs.build(labelled_spec("optical", 1)), "behind it: one")
+            w_.add_block(specs.build(labelled_spec("platCal", 1)), "behind it: two \u20ac")
+        others = {reftdf.TYPE_CODE["optical"]: "behind it: one", reftdf.TYPE_CODE["platCal"]: "behind it: two \u20ac"}
+
+        def by_type(where):
+            got = {e["type"]: e["comment"] for e in reftdf.parse_container(open(path, "rb").read())["entries"] if e["type"]}
+            for code, want in others.items():
+                if got.get(code) != want:
+                    ctx.fail(f"file-comment/{where}/bystander-comment-changed", f"{where}: the comment of the {reftdf.CODE_TYPE[code]} block, which was not touched, reads "
+                                                                                f"{got.get(code)!r}; it was stored as {want!r}")
+            return got.get(reftdf.TYPE_CODE["events"])
+
         want1 = "Generated by basicTDF" if c1 is None else c1
-        got1 = reftdf.parse_container(open(path, "rb").read())["entries"][0]["comment"]
+        got1 = by_type("add")
         if got1 != want1:
             ctx.fail("file-comment/add/differs", f"add_block with comment {c1!r}: the entry holds {got1!r}")
         with Tdf(path).allow_write() as w_:
@@ -636,12 +694,24 @@ def run_file_comments(ctx, case):
             else:
                 w_.replace_block(specs.build(labelled_spec("events", 2)), c2)
                 want2 = c2
-        got2 = reftdf.parse_container(open(path, "rb").read())["entries"][0]["comment"]
+        got2 = by_type(via)
         if got2 != want2:
             ctx.fail("file-comment/replace/differs", f"block added with comment {c1!r}, then replaced ({via}) with comment {c2!r}: the entry holds {got2!r}, expected {want2!r}")
         with Tdf(path) as r:
-            if r.entries[0].comment != want2:
-                ctx.fail("file-comment/read-back/differs", f"after reopening, the entry comment reads {r.entries[0].comment!r}, expected {want2!r}")
+            mine = [e for e in r.entries if e.type.value == reftdf.TYPE_CODE["events"]]
+            if len(mine) != 1 or mine[0].comment != want2:
+                ctx.fail("file-comment/read-back/differs", f"after reopening, the entry comment reads {[e.comment for e in mine]!r}, expected {want2!r}")
+            for e in r.entries:
+                if e.type.value in others and e.comment != others[e.type.value]:
+                    ctx.fail("file-comment/read-back/bystander-comment-changed", f"after reopening, the comment of the untouched {reftdf.CODE_TYPE[e.type.value]} block reads "
+                                                                                 f"{e.comment!r}; it was stored as {others[e.type.value]!r}")
+        if case["via"] == "replace_block" and case["c2"] is None:
+            # ... and a plain removal of the first block
+            from basictdf.tdfBlock import BlockType
+
+            with Tdf(path).allow_write() as w_:
+                w_.remove_block(BlockType(reftdf.TYPE_CODE["events"]))
+            by_type("remove")
     finally:
         env.rmdir(d)
     ctx.case(case, c2 is not None or c1 is not None, labels=["file-comments", via])
